@@ -1,4 +1,6 @@
 import PyamgV.Props.Restate
+import PyamgV.Model.Facts
+import PyamgV.Generated.Facts
 import PyamgV.Proofs.Mis
 import PyamgV.Proofs.MisInstantiate
 import PyamgV.Proofs.MisParTerm2
@@ -39,5 +41,9 @@ restate mis_serial_passes_checker := PyamgV.Chk.misSerial_passes
 /-! non-vacuity: the path 0–1–2–3 is a well-formed symmetric graph and the model returns {0, 2} -/
 example : Chk.checkMIS ⟨4, fun i => [[1],[0,2],[1,3],[2]].getD i []⟩
     (misSerial ⟨4, fun i => [[1],[0,2],[1,3],[2]].getD i []⟩ (-1) 1 0 #[-1,-1,-1,-1]) = true := by decide
+
+/-! ### interface facts regenerated from the working tree on every run (translator tie) -/
+/-- the `kernels_graph` table the models assume equals the one regenerated from the source now -/
+theorem generated_kernels_graph : PyamgV.Facts.kernels_graph = PyamgV.Generated.kernels_graph := by decide
 
 end PyamgV.Props.C18
